@@ -38,7 +38,13 @@ async def stdio_client_with_initialize(
 
     async with stdio_client(server_params) as (read_stream, write_stream):
         # Perform initialization
-        init_result = await send_initialize(read_stream, write_stream, timeout=timeout)
+        init_result = await send_initialize(
+            read_stream,
+            write_stream,
+            timeout=timeout,
+            supported_versions=supported_versions,
+            preferred_version=preferred_version,
+        )
         if not init_result:
             raise Exception("Initialization failed")
 
